@@ -4,7 +4,7 @@ import PikaVerif.Lemmas.CV2
 namespace PikaVerif.CV
 open PikaVerif
 
-attribute [local grind] holds holdsU noU inQ waitExp needTok setPopped b2n isTimed isPred
+attribute [local grind] holds holdsU noU inQ waitExp needTok setPopped b2n isTimed isPred exitPc
 
 theorem popCore_effect (s s' : St) (t z g : Nat) (d : Bool) (pcT : Pc)
     (h : popCore s t z g d pcT = some s') :
@@ -35,6 +35,16 @@ theorem popCore_effect (s s' : St) (t z g : Nat) (d : Bool) (pcT : Pc)
   | false => left; simp [upd]
   | true => right; simp at hdrop; simp [hdrop]
 
+theorem popAll_core {s s' : St} {u z g : Nat} {d : Bool} (h : step s (.popAll u z g d) = some s') :
+    ∃ pcT, popCore s u z g d pcT = some s' := by
+  simp only [step] at h
+  split at h
+  case isFalse => simp at h
+  split at h
+  case h_3 => simp at h
+  · exact ⟨_, h⟩
+  · exact ⟨_, h⟩
+
 theorem nall_step (s s' : St) (hi : Inv s) (e : Ev) (u w : Nat) (hl : s.lock = some u)
     (hpc : s.pc u = .nAll) (hw : s.waiting w = true) (hne : e ≠ .slRel u) (h : step s e = some s') :
     (∃ z d, e = .popAll u z w d) ∨ (s'.waiting w = true ∧ s'.lock = some u ∧ s'.pc u = .nAll) := by
@@ -51,8 +61,8 @@ theorem nall_step (s s' : St) (hi : Inv s) (e : Ev) (u w : Nat) (hl : s.lock = s
     rename_i hg
     have htu : t = u := by have := hg.2; rw [hl] at this; simpa using this.symm
     subst htu
-    split at h
-    case h_2 => simp at h
+    rw [hpc] at h
+    simp only at h
     obtain ⟨_, hw', _, _, _, _, _⟩ := popCore_effect s s' t z g d .nAll h
     by_cases hgw : g = w
     · subst hgw; exact Or.inl ⟨z, d, rfl⟩
